@@ -106,12 +106,14 @@ def run(chk):
                 return route == pt
             for q, o in zip(qs, outs):
                 s = unhx(q)
-                if (s == b"" or not s.startswith(b"/")) and o != "404":
+                if (s == b"" or not s.startswith(b"/")) and not o.startswith("404"):
                     chk.monitor_fail("a route string not starting with '/' was served: %r -> %s" % (s[:40], o), dict(case=c[:600], impl=a[:300]))
                 if o.startswith("s") and o != "404":
                     sid = o[1:].split(";")[0]
                     if sid in pat and all(matches(pt, s) is False for pt in pat[sid]):
                         chk.monitor_fail("route %r was delivered to the service registered at %r, which it does not match" % (s[:60], [pt[:60] for pt in pat[sid]]), dict(case=c, impl=a[:600]))
+                if o.startswith("404;"):
+                    chk.monitor_fail("route layer(s) %s ran for the unmatched route %r" % (o[4:], s[:60]), dict(case=c, impl=a[:600]))
                 if o == "404":
                     exact = [k for k, pts in pat.items() for pt in pts if b"*" not in pt and b":" not in pt and pt == s]
                     if exact:
